@@ -185,6 +185,7 @@ func checkC09(r *Report) {
 	nK := skipCounterRule(r, p, "C09.g/SKIP-COUNTER", "semver")
 	r.floor("C09.g/SKIP-COUNTER", "merge loops (inner index starting at the outer index + 1) in package semver", nK, 1)
 	boundsCopiedRule(r, p, "C09.i/BOUNDS-COPIED")
+	tiePrereleaseRule(r, p, "C09.l/TIE-PRERELEASE")
 	nPF := preFlagRule(r, p, "C09.k/PRE-FLAG")
 	r.floor("C09.k/PRE-FLAG", "sites where the prerelease tags of a bound are dropped or a copied bound is bumped", nPF, 6)
 	nNP := numsPaddedRule(r, p, "C09.j/NUMS-PADDED")
@@ -838,4 +839,68 @@ func preFlagRule(r *Report, p *Prog, rule string) int {
 		}
 	}
 	return n
+}
+
+// tiePrereleaseRule (C09.l TIE-PRERELEASE): two lower bounds can compare equal
+// and still differ in what they admit: the bound MinVersion synthesises for
+// "<X" (0.0.0-0 with isPrerelease cleared on purpose) equals a user-written
+// 0.0.0-0, whose flag lets span.contains admit prereleases of 0.0.0. Where
+// Intersect finds the lower bounds of its operands equal it must look at that
+// flag to choose between them; if it always keeps the receiver's, "<1.0.0
+// >=0.0.0-0" and ">=0.0.0-0 <1.0.0" print the same set and match differently.
+func tiePrereleaseRule(r *Report, p *Prog, rule string) {
+	f := p.lookupFn("(*semver.Set).Intersect")
+	key := "(*semver.Set).Intersect: a tie of lower bounds is decided with the prerelease flag"
+	if f == nil {
+		r.bad(rule, key, "", "Intersect not found: anchor lost")
+		return
+	}
+	spanField := func(v ssa.Value) string {
+		// *(&X.min) where X is a span
+		ld, ok := v.(*ssa.UnOp)
+		if !ok {
+			if fv, ok := v.(*ssa.Field); ok && strings.HasSuffix(fv.X.Type().String(), "semver.span") {
+				return fv.X.Type().Underlying().(*types.Struct).Field(fv.Field).Name()
+			}
+			return ""
+		}
+		fa, ok := ld.X.(*ssa.FieldAddr)
+		if !ok {
+			return ""
+		}
+		pt, ok := fa.X.Type().Underlying().(*types.Pointer)
+		if !ok || !strings.HasSuffix(pt.Elem().String(), "semver.span") {
+			return ""
+		}
+		return pt.Elem().Underlying().(*types.Struct).Field(fa.Field).Name()
+	}
+	ties := 0
+	flagRead := false
+	var at token.Pos
+	for _, b := range f.Blocks {
+		for _, in := range b.Instrs {
+			switch x := in.(type) {
+			case *ssa.Call:
+				if staticCalleeName(x) == "(*semver.Version).equal" && len(x.Common().Args) == 2 &&
+					spanField(x.Common().Args[0]) == "min" && spanField(x.Common().Args[1]) == "min" {
+					ties++
+					at = x.Pos()
+				}
+			case *ssa.FieldAddr:
+				pt, ok := x.X.Type().Underlying().(*types.Pointer)
+				if ok && strings.HasSuffix(pt.Elem().String(), "semver.Version") &&
+					pt.Elem().Underlying().(*types.Struct).Field(x.Field).Name() == "isPrerelease" && spanField(x.X) == "min" {
+					flagRead = true
+				}
+			}
+		}
+	}
+	switch {
+	case ties == 0:
+		r.bad(rule, key, p.pos(f.Pos()), "no test that the lower bounds of the two operands are equal: anchor lost")
+	case !flagRead:
+		r.bad(rule, key, p.pos(at), "the lower bounds of the two operands are found equal and the receiver's is kept without looking at isPrerelease: the synthetic 0.0.0-0 that MinVersion makes for \"<X\" (flag cleared on purpose) and a user-written 0.0.0-0 compare equal but admit different versions, so the intersection depends on which operand is the receiver")
+	default:
+		r.ok(rule, key, p.pos(at), "the prerelease flag of a lower bound is read where the bounds tie")
+	}
 }
